@@ -50,5 +50,15 @@ Definition minimum (d : A) (l : list A) : A := hd d (sort l).
 Theorem C14_min_order_independent : forall d l l', Permutation l l' -> minimum d l = minimum d l'.
 Proof. intros d l l' P. unfold minimum. now rewrite (C14_sorted_order_independent l l' P). Qed.
 End C14.
+Require Import GenPrelude FromTransformers Ctx FutTransform FutTransformProofs.
+(* the same for the transformer model that is compared with transformers.transform on every run (Model/FutTransform.v): the future predicates - one
+   bridge rule and one future signature each - come out strictly sorted and are exactly those of the rule heads, whatever order the set is iterated in
+   and whatever the order or repetition of the statements *)
+Theorem C14_future_predicates_sorted_and_exact : forall (A : Type) (leA : A -> A -> bool), (forall a b, leA a b = true \/ leA b a = true) ->
+  (forall a b c, leA a b = true -> leA b c = true -> leA a c = true) -> (forall a b, leA a b = true -> leA b a = true -> a = b) ->
+  forall (P : list (frule A)) (o : output A), transform_program A leA P = Some o ->
+  StronglySorted (lt_fut A leA) (o_bridge A o) /\ forall z, In z (o_bridge A o) <-> futs_of A P z.
+Proof. exact bridges_sorted_and_exact. Qed.
+Print Assumptions C14_future_predicates_sorted_and_exact.
 Print Assumptions C14_sorted_order_independent.
 Print Assumptions C14_min_order_independent.
